@@ -151,6 +151,9 @@ def dmm_nextidx(subidxs_rep, subidxs_ds, subshape, shape, cellsize, mv=_mv):
         dc = (subidx % subncol) % cellsize // R
         subr0 = (idx0 // ncol + dr) * cellsize - 0.5
         subc0 = (idx0 % ncol + dc) * cellsize - 0.5
+        R0 = R
+        if cellsize == 1:  # the offset window degenerates: use the cell itself
+            subr0, subc0, R0 = float(idx0 // ncol), float(idx0 % ncol), 0.0
         while True:
             # next downstream highres cell index
             subidx1 = subidxs_ds[subidx]
@@ -160,7 +163,7 @@ def dmm_nextidx(subidxs_rep, subidxs_ds, subshape, shape, cellsize, mv=_mv):
             elif idx1 != idx0:  # outside offset lowres cell
                 subr = subidx // subncol
                 subc = subidx % subncol
-                if abs(subr - subr0) > R or abs(subc - subc0) > R:
+                if abs(subr - subr0) > R0 or abs(subc - subc0) > R0:
                     break
             # next iter
             subidx = subidx1
